@@ -191,12 +191,15 @@ func (w *Queue) start() {
 	}
 
 	// Process work
+	var arrivals uint64
 outsideFor:
 	for {
 	insideFor:
 		select {
 		case work := <-w.workChan:
 			if work != nil {
+				arrivals++
+				work.seq = arrivals
 				// If queue is empty try to send directly to workers via workerCh
 				if w.workQueue.Len() == 0 {
 					select {
